@@ -28,6 +28,8 @@ VACUITY_LABEL = 'vacuity twin: the end of the harness is reachable (assert False
 
 
 def get_mods(instrumented, yields=False, variant=None):
+    if isinstance(yields, list):
+        yields = tuple(yields)
     key = (instrumented, yields, variant)
     if key not in _MODS:
         if variant == 'usb':
@@ -58,7 +60,7 @@ def _jsonable(v):
 
 def run_native(hmod, shape, values, choices):
     """Run the harness on the *unmodified* source with concrete inputs."""
-    mods = get_mods(False, yields=bool(shape.get('yields')), variant=shape.get('variant'))
+    mods = get_mods(False, yields=shape.get('yields') or False, variant=shape.get('variant'))
     nctx = core.NativeCtx(values, choices)
     prev, core.CUR = core.CUR, None
     prev_ab, core.ABORTED = core.ABORTED, False
@@ -106,7 +108,7 @@ def work(args):
            'capped': False, 'reaching': 0, 'validated': 0, 'val_mismatch': [], 'failures': [], 'cov': [], 'notes': [], 'error': None, 'sample': None,
            'aborted': 0, 'budget': 0}
     try:
-        mods = get_mods(True, yields=bool(shape.get('yields')), variant=shape.get('variant'))
+        mods = get_mods(True, yields=shape.get('yields') or False, variant=shape.get('variant'))
         fn = hmod.HARNESSES[shape['h']]
         ex = core.Explorer(max_paths=shape.get('max_paths', 20000 if tier == 'quick' else 200000), abstract_decode=bool(shape.get('abstract_decode')))
         if shape.get('xpart'):
